@@ -5,7 +5,7 @@
 #   lib/seedbox.sh run "C12 C02" "5 6" [ids...]   apply seeded/<p>/<k>/patch.diff there, run the quick checks (default: <p>), copy meta.json back
 #   lib/seedbox.sh clean                          remove the sandbox and its worktrees
 set -e
-SV=/tmp/sv
+SV=${SV:-/tmp/sv}
 cmd=$1
 case "$cmd" in
 setup)
